@@ -9,6 +9,7 @@ package main
 
 import (
 	"bytes"
+	"encoding/binary"
 	"encoding/json"
 	"errors"
 	"fmt"
@@ -113,6 +114,9 @@ type stReadEntry struct {
 	Name  string
 	Input []byte
 	Run   func(r io.Reader) (digest string, n int64, err error)
+	// Announced: by the format the value needs more bytes than Input holds (a declared length far beyond the end of the
+	// stream): there is no contiguous reference run; the stream ending at len(Input) is an end of file before the end of the value
+	Announced bool
 }
 
 type failingWriter struct {
@@ -321,6 +325,43 @@ func stEntries(rng *rand.Rand, nEach int) (rs []stReadEntry, ws []stWriteEntry) 
 		}})
 		ws = append(ws, stWriteEntry{Name: "packet field pk.NBT", Run: func(w io.Writer) error { _, err := pk.NBT(gv).WriteTo(w); return err }})
 	}
+	// NBT arrays whose DECLARED length lies far beyond the end of the stream (the byte count of the payload does not fit
+	// 31 bits for some of them): read through the skipping paths, which do not allocate by the declared length
+	for _, ann := range []struct {
+		tag  byte
+		size int
+		ln   uint32
+	}{{11, 4, 1 << 29}, {11, 4, 1<<29 + 1}, {11, 4, 1 << 30}, {11, 4, 1<<31 - 1}, {11, 4, 3 << 29}, {12, 8, 1 << 28}, {12, 8, 1<<28 + 1}, {12, 8, 1 << 29},
+		{12, 8, 1<<31 - 1}, {7, 1, 1<<31 - 1}, {11, 4, 1 << 20}, {12, 8, 1 << 20}} {
+		rnd := func(n int) []byte {
+			b := make([]byte, n)
+			rng.Read(b)
+			return b
+		}
+		// what the stream still holds behind the declared length: nothing, a few payload bytes, or payload bytes that
+		// happen to read as the rest of a document (an end tag; another field and an end tag)
+		for _, rest := range [][]byte{{}, rnd(3), rnd(ann.size), rnd(5 * ann.size), {0}, {0, 0}, {3, 0, 1, 'b', 0, 0, 0, 7, 0}, {0, 0, 0, 0, 0, 0, 0, 0, 0}} {
+			doc := []byte{10, 0, 0, ann.tag, 0, 1, 'a'}
+			doc = binary.BigEndian.AppendUint32(doc, ann.ln)
+			doc = append(doc, rest...)
+			for _, tg := range []string{"raw", "skipped field"} {
+				tg := tg
+				rs = append(rs, stReadEntry{Name: fmt.Sprintf("nbt decode into %s (announced tag-%d array)", tg, ann.tag), Input: doc, Announced: true, Run: func(r io.Reader) (string, int64, error) {
+					d := nbt.NewDecoder(r)
+					if tg == "raw" {
+						var v nbt.RawMessage
+						_, err := d.Decode(&v)
+						return fmt.Sprint(v.Type, len(v.Data)), -1, err
+					}
+					var v struct {
+						B int32 `nbt:"b"`
+					}
+					_, err := d.Decode(&v)
+					return fmt.Sprint(v.B), -1, err
+				}})
+			}
+		}
+	}
 	// RCON
 	for _, sz := range []int{0, 1, 40} {
 		payload := make([]byte, sz)
@@ -400,6 +441,15 @@ func stRun(e stReadEntry, segs []int, f stFault, byteRdr bool) (r stRunRes) {
 }
 
 func stReadEvent(e stReadEntry, idx int, segs []int, f stFault, byteRdr bool) (stReadEv, bool) {
+	if e.Announced {
+		// need is only known to lie beyond the stream; the fault is the stream's own end (or an earlier injected one)
+		if f.Kind == "none" || f.At > len(e.Input) {
+			f = stFault{Kind: "eof", At: len(e.Input)}
+		}
+		r := stRun(e, segs, f, byteRdr)
+		return stReadEv{K: "read", Entry: e.Name, Len: len(e.Input), Need: len(e.Input) + 1, Segs: segs, Fault: f, ByteRdr: byteRdr,
+			Ok: r.ok, Same: false, N: int(r.n), Cn: -1, Consumed: r.consumed, Panicked: r.panicked, Idx: idx}, true
+	}
 	// the reference is THE contiguous read: all bytes available at once from a reader that also offers ReadByte (what a
 	// bytes.Reader is); the run under test may see the same stream through a plain io.Reader
 	base := stRun(e, []int{len(e.Input)}, stFault{Kind: "none"}, true)
@@ -532,8 +582,8 @@ func stLineSig(raw []byte) string {
 }
 
 func runC09(env *vk.Env) {
-	env.Cov.Rule = "S: TLC checks Stream.tla's full-read loop against Demand(need, fault) and termination for all compositions x fault offsets x kinds of inputs up to 7 bytes. A: each emitted (total, need, segmentation, fault) is applied to real readers whose value needs exactly `need` bytes. B: every reader entry (all wire field types, Option/Ary/Tuple, FixedBitSet, sign.Signature, frames in three modes, NBT into any/raw/dynbt/stringified/typed, RCON packets) under one-byte, two-segment and random segmentations and every fault offset (both kinds, plain and ByteReader transports); every writer entry under a sink failing after k bytes for every k. Distinct/non-trivial = distinct (entry, schedule class)."
-	env.Assume = []string{"readers that return (0, nil) are not generated", "need, the contiguous value and its byte count are observed on the contiguous run of the same real code (the property's own oracle)"}
+	env.Cov.Rule = "S: TLC checks Stream.tla's full-read loop against Demand(need, fault) and termination for all compositions x fault offsets x kinds of inputs up to 7 bytes. A: each emitted (total, need, segmentation, fault) is applied to real readers whose value needs exactly `need` bytes. B: every reader entry (all wire field types, Option/Ary/Tuple, FixedBitSet, sign.Signature, frames in three modes, NBT into any/raw/dynbt/stringified/typed, NBT arrays whose declared length (up to 2^31-1 elements) lies beyond the end of the stream read through the two skipping paths, RCON packets) under one-byte, two-segment and random segmentations and every fault offset (both kinds, plain and ByteReader transports); every writer entry under a sink failing after k bytes for every k. Distinct/non-trivial = distinct (entry, schedule class)."
+	env.Assume = []string{"readers that return (0, nil) are not generated", "need, the contiguous value and its byte count are observed on the contiguous run of the same real code (the property's own oracle); for the announced-array entries need is only known to exceed the stream length (declared length x element size, by the format)"}
 	cfg := "Stream_MC.cfg"
 	if !env.Quick() {
 		cfg = "Stream_MC_thorough.cfg"
@@ -596,7 +646,7 @@ func runC09(env *vk.Env) {
 	for i, e := range rs {
 		n := len(e.Input)
 		// the value as the last thing in the stream (its last byte may then arrive together with io.EOF)
-		if base := stRun(e, []int{n}, stFault{Kind: "none"}, true); base.ok && !base.panicked && base.consumed > 0 {
+		if base := stRun(e, []int{n}, stFault{Kind: "none"}, true); !e.Announced && base.ok && !base.panicked && base.consumed > 0 {
 			ec := e
 			ec.Input = e.Input[:base.consumed]
 			for _, br := range []bool{false, true} {
